@@ -161,6 +161,15 @@ fn is_crate(s: &str) -> bool {
     !s.contains(|cc: char| !cc.is_alphanumeric() && cc != '_' && cc != '-')
 }
 
+/// The text of a derive path as one would write it (`::a::B`, no spaces
+/// between tokens) so that it is the same string as the one given to
+/// `TypeSpaceSettings::with_derive` or `cargo typify --additional-derive`.
+/// Derives are ordered and de-duplicated as strings (also against the derives
+/// typify itself applies, e.g. `::serde::Serialize`).
+fn derive_text(path: &syn::Path) -> String {
+    path.to_token_stream().to_string().replace(' ', "")
+}
+
 #[derive(Deserialize)]
 struct MacroPatch {
     #[serde(default)]
@@ -176,7 +185,7 @@ impl From<MacroPatch> for TypeSpacePatch {
             s.with_rename(rename);
         });
         a.derives.iter().for_each(|derive| {
-            s.with_derive(derive.to_token_stream());
+            s.with_derive(derive_text(derive));
         });
         s
     }
@@ -200,7 +209,7 @@ fn do_import_types(item: TokenStream) -> Result<TokenStream, syn::Error> {
         } = serde_tokenstream::from_tokenstream(&item.into())?;
         let mut settings = TypeSpaceSettings::default();
         derives.into_iter().for_each(|derive| {
-            settings.with_derive(derive.to_token_stream().to_string());
+            settings.with_derive(derive_text(&derive));
         });
         settings.with_struct_builder(struct_builder);
 
